@@ -246,7 +246,7 @@ def _strategy(nmax: int):
 
     @st.composite
     def case(draw: Any) -> dict:
-        n = draw(st.one_of(st.integers(2, min(12, nmax)), st.integers(2, nmax), st.sampled_from([1, 2, 3, 5, 8, 16, 17, nmax])))
+        n = draw(st.one_of(st.integers(2, min(12, nmax)), st.integers(2, nmax), st.sampled_from([1, 2, 3, 5, 8, 16, 17, nmax]))) if nmax <= 32 else draw(st.one_of(st.integers(33, nmax), st.sampled_from([64, 65, 100, nmax])))
         dtype = draw(st.sampled_from(["f32", "f64"]))
         kind = draw(st.sampled_from(["eigen", "eigen", "eigen_stab", "newton", "higher"]))
         solver: dict = {"kind": kind}
@@ -275,5 +275,5 @@ def _strategy(nmax: int):
 
 STREAMS = {
     "small": Stream("small", oracle=oracle, strategy=strategy, quick=12000, thorough=300000, shards_quick=16, shards_thorough=16),
-    "large": Stream("large", oracle=oracle, strategy=strategy_large, quick=0, thorough=30000, shards_quick=1, shards_thorough=16),
+    "large": Stream("large", oracle=oracle, strategy=strategy_large, quick=320, thorough=30000, shards_quick=8, shards_thorough=16),
 }
